@@ -332,6 +332,29 @@ def run(ctx):
                 except Exception:
                     pass  # judged by the monitor
             ctx.hit("workload:input and output variable of one name")
+        # every activation method, the finite input values given one row at a time in the ways a caller has: floats, 0-d arrays,
+        # arrays of one value, a matrix of one row
+        for i, rnd in ctx.cases("single rows", ctx.scale(40, 800)):
+            spec = E.gen_engine(rnd, activations=("First", "Last", "Highest", "Lowest", "Proportional", "Threshold", "General"), flags=False, locks=False, d=3, resolutions=[5, 10], max_depth=2, allow_output_antecedent=False, free_weights=True)
+            try:
+                engine = E.build(fl, spec)
+            except Exception as ex:
+                ctx.hit(f"inconclusive:engine does not build: {type(ex).__name__}")
+                continue
+            keep_alive.append(engine)
+            mon.needs[id(engine)] = []
+            for k, row in enumerate(E.finite_rows(rnd, spec, 4)):
+                engine.is_ready()
+                if k == 3:
+                    engine.input_values = np.array([row], dtype=float)
+                else:
+                    for v, x in zip(engine.input_variables, row):
+                        v.value = [float, np.array, lambda x: np.array([x])][k](x)
+                try:
+                    engine.process()
+                except Exception:
+                    pass  # judged by the monitor
+            ctx.hit("workload:single rows in every form under every activation method")
         # rules that mention an input variable without terms through `any`, and rules whose connectives are written in capitals:
         # if the library takes them (the pinned one refuses both), an engine it then reports ready can be processed
         for i, rnd in ctx.cases("unusual rules", ctx.scale(30, 600)):
@@ -443,7 +466,7 @@ def run(ctx):
             ctx.hit("workload:shared defuzzifier object")
         probe.report(ctx)
         reach.report(ctx)
-    ctx.require("workload:rules over a term-less variable / with connectives in capitals")
+    ctx.require("workload:rules over a term-less variable / with connectives in capitals", "workload:single rows in every form under every activation method")
     ctx.require("workload:input and output variable of one name", "event:engine reconfigured after a first verdict and asked again", "event:weighted output given an integral defuzzifier on the live engine", *[f"environment:{e}" for e in ENVIRONMENTS])
     ctx.require("workload:shared defuzzifier object", "workload:engines with disabled components", "workload:engine with a rule whose load is rejected", "workload:rule blocks with equal names", "workload:rule block with more than 32 rules", "workload:long Mamdani block fed batches")
     ctx.require("hook:Engine.is_ready", "hook:Engine.process", "event:is_ready:True", "event:is_ready:False", "event:process after ready", "converse:conjunction", "converse:disjunction", "converse:implication", "converse:aggregation", "converse:defuzzifier", "raise-site:Antecedent.activation_degree:missing operator surfaced", "raise-site:OutputVariable.defuzzify:missing operator surfaced")
